@@ -3,8 +3,9 @@
 (*                                                                                          *)
 (* A small fixed tree with a document root two levels below "/", things OUTSIDE the root    *)
 (* that an escaping request would hit (a secret beside the root, a sibling directory whose  *)
-(* name has the root's name as a prefix, a Maildir layout in the parent of the root, a      *)
-(* working directory with look-alike files), and INSIDE the root one node of every kind the *)
+(* name has the root's name as a prefix, a parent directory that is itself a Maildir and    *)
+(* holds a look-alike of every name in the root, a working directory with look-alike        *)
+(* files), and INSIDE the root one node of every kind the                                   *)
 (* handlers distinguish (plain file, directory, ZIP archive, mbox, executable, Maildir,     *)
 (* a directory symlink and a file symlink that stay inside).  harness/c01.py builds exactly *)
 (* this tree on disk (twice, with different content outside the root).                      *)
@@ -54,7 +55,12 @@ NodesS ==
   { D(""), D("/o"),
     \* ---- outside the root ----
     F("/o/secret", "plain"),
-    D("/o/ra"), F("/o/ra/g", "plain"),                              \* sibling: root name + "a"
+    D("/o/rg"), F("/o/rg/g", "plain"),                              \* sibling: root name + "g"
+    \* the parent of the root is a look-alike of the root: whatever name a request uses inside the
+    \* root also exists one level up, so that an escape by ".." lands on something of every kind
+    F("/o/g", "plain"), D("/o/k"), F("/o/k/g", "plain"), F("/o/z.zip", "zip"), F("/o/m.mbox", "mbox"),
+    F("/o/s.sh", "exec"), DF("/o/md", "maildir"), D("/o/md/new"), D("/o/md/cur"), D("/o/md/tmp"),
+    F("/o/md/new/1", "plain"),
     D("/o/new"), D("/o/cur"), D("/o/tmp"), F("/o/new/1", "plain"),  \* parent of the root is a Maildir
     D("/o/w"), F("/o/w/g", "plain"), F("/o/w/m.mbox", "mbox"), F("/o/w/s.sh", "exec"),
     D("/o/w/k"), F("/o/w/k/g", "plain"), F("/o/w/k/s.sh", "exec"),  \* a working directory
@@ -136,11 +142,12 @@ Children(n) == {c[Len(c)] : c \in {c \in TreePaths : Len(c) = Len(n) + 1 /\ Pare
 
 \* self-checks of the tree and of the resolver (TLC evaluates them once)
 ASSUME \A c \in TreePaths : Parent(c) \in TreePaths
-ASSUME Inside(Canon("/o/r/g")) /\ ~Inside(Canon("/o/ra/g")) /\ ~Inside(Canon("/o")) /\ Inside(RootC)
+ASSUME Inside(Canon("/o/r/g")) /\ ~Inside(Canon("/o/rg/g")) /\ ~Inside(Canon("/o")) /\ Inside(RootC)
 ASSUME StatP(Q("/o/r/lk/g")).k = "file" /\ ~StatP(Q("/o/r/lk/g")).out
 ASSUME StatP(Q("/o/r/../secret")).k = "file" /\ StatP(Q("/o/r/../secret")).out
 ASSUME StatP(Q("/o/r/k/../g")).k = "file" /\ ~StatP(Q("/o/r/k/../g")).out
 ASSUME StatP(Q("/o/r/g/")).err = "ENOTDIR" /\ StatP(Q("/o/r//k/./g")).k = "file"
-ASSUME StatP(Q("/o/ra/g")).out /\ WalkPath(Q("/o/r/../../../..")).at = <<>>
+ASSUME StatP(Q("/o/rg/g")).out /\ WalkPath(Q("/o/r/../../../..")).at = <<>>
+ASSUME StatP(Q("/o/r/../m.mbox")).f = "mbox" /\ StatP(Q("/o/r/../m.mbox")).out
 ASSUME StatP(Q("/o/r/nothere")).err = "ENOENT" /\ ~StatP(Q("/o/r/nothere")).out
 =============================================================================
